@@ -232,3 +232,36 @@ Proof.
   apply decode_encode_call_null. exact Hm.
 Qed.
 Print Assumptions sent_nil_params_decodes.
+
+(* ================= non-vacuity ================= *)
+
+Example exA_refused_more_oneway : client_send 3 [97; 46; 98] PNone = SRefused s_oneway.
+Proof. vm_compute. reflexivity. Qed.
+Example exA_refused_more_upgrade : client_send 9 [97; 46; 98] PNone = SRefused s_more.
+Proof. vm_compute. reflexivity. Qed.
+Example exA_refused_all : client_send 11 [97; 46; 98] PNone = SRefused s_oneway.
+Proof. vm_compute. reflexivity. Qed.
+(* Continues (bit 2) is not a request flag: it is ignored by Send *)
+Example exA_continues_ignored : client_send 4 [97; 46; 98] PNone = client_send 0 [97; 46; 98] PNone.
+Proof. vm_compute. reflexivity. Qed.
+Example exA_marshal_err : client_send 0 [97; 46; 98] (PJson (JNum [43])) = SMarshalErr.
+Proof. vm_compute. reflexivity. Qed.
+Example exA_sent_more :
+  match client_send 1 [97; 46; 98] (PJson (JObj [([120], JNum [49])])) with
+  | SSent msg => decode_call (strip_last msg)
+  | _ => None
+  end = Some (mkCall [97; 46; 98] (Some (encode_value (JObj [([120], JNum [49])]))) true false false).
+Proof. vm_compute. reflexivity. Qed.
+Example exA_get_info_request :
+  match get_info_request with
+  | SSent msg => decode_call (strip_last msg)
+  | _ => None
+  end = Some (mkCall (org_varlink_service ++ [46] ++ m_GetInfo) None false false false).
+Proof. vm_compute. reflexivity. Qed.
+Example exA_get_descr_request :
+  match get_descr_request [97; 46; 98] with
+  | SSent msg => decode_call (strip_last msg)
+  | _ => None
+  end = Some (mkCall (org_varlink_service ++ [46] ++ m_GetInterfaceDescription)
+                     (Some ([123] ++ member s_interface (encode_string [97; 46; 98]) ++ [125])) false false false).
+Proof. vm_compute. reflexivity. Qed.
